@@ -6,6 +6,7 @@ from lib import pyvals as pv
 from lib.gallina import gQ, gbool
 from props import rec_common as rc
 from props import c17_s3
+from props import rec2_cases as r2
 
 ID = "C17"
 LOG_LEVEL_INVARIANT = True      # (harness/vp.py: a sample of the cases again with logging at DEBUG; same observables)
@@ -29,7 +30,10 @@ RULE = ("the full decision table skipped x rate {0, 1/4, 1/2, float(0.1), 1, 3/2
         "text, bytes; two classes with different fractional rates), the decisions also compared with the documented rule applied "
         "to the stream of random.Random(seed) itself; the S3 cassettes are fed directly or THROUGH a real TapeRecorder whose "
         "operations return / raise / are interrupted, also with a calculated rate of 0 for every size: every save consults "
-        "the calculator once; "
+        "the calculator once; a recorded operation inside which other scopes of the recorder open and close (a replay of an "
+        "earlier recording, another decorated operation called from the body - kind nested_scope, implementation only): the "
+        "decision for the enclosing operation follows (forced, ignore, rate, draw) and every created recording is handed back "
+        "to the cassette exactly once; "
         "non-trivial = a row where the draw decides or a force/discard interacts; distinct = distinct case")
 ASSUMPTIONS = ["the Mersenne Twister is an oracle stream; uniformity is assumed, the kept fraction over a seeded history is "
                "reported as an observation only",
@@ -165,6 +169,8 @@ def generate(rng, tier):
     # S3 storage-level rule over histories: several cassettes with a size-based calculator in one process, each with
     # the generator it constructed itself (same history => same decisions, whatever the other cassettes do)
     cases += c17_s3.generate(rng, tier)
+    # a recorded operation inside which other scopes of the recorder open and close (nested replay / nested operation call)
+    cases += r2.nested_scope_cases()
     # seeded real Random: same seed twice, and a twin history that differs only in content and outcome
     n = 60 if tier == "quick" else 2000
     for seed in ([7] if tier == "quick" else [7, 11, 13]):
@@ -279,6 +285,8 @@ def direct(case, obs):
             fails.append(("s3-wrong-decision", "ratio %s draw %s: stored=%s, rule says %s" % (case["ratio"], case["draw"], obs["kept"], want)))
     elif case["kind"] == "s3hist":
         fails += c17_s3.direct(case, obs)
+    elif r2.is_rec2(case):
+        fails += r2.direct_sampling(case, obs)
     else:
         if obs["a1"] != obs["a2"]:
             fails.append(("not-reproducible", "same seed, same history: decisions differ"))
@@ -301,7 +309,7 @@ def direct(case, obs):
 def log_invariant_view(case, obs):
     """recorder histories and scripted S3 decisions are deterministic; the multi-cassette S3 histories carry sizes and draws
     of real generators that vary from run to run"""
-    return obs if case.get("kind") in ("history", "s3") else None
+    return obs if case.get("kind") in ("history", "s3", "nested_scope") else None
 
 
 def features(case):
@@ -326,6 +334,8 @@ def features(case):
         return fs
     if case["kind"] == "s3hist":
         return c17_s3.features(case)
+    if r2.is_rec2(case):
+        return r2.features(case)
     if case["kind"] == "seeded":
         sd = seed_value(case)
         return {"seeded", "seed:%s:%s" % (type(sd).__name__, "falsy" if not sd else "negative" if isinstance(sd, (int, float)) and sd < 0
